@@ -7,7 +7,7 @@ use soroban_sdk::model::{self, any};
 use soroban_sdk::token::{Interface as _, StellarAssetInterface as _};
 use soroban_sdk::{symbol_short, Address, BytesN, Env, IntoVal, Symbol, Val};
 
-fn tok() -> Address {
+pub fn tok() -> Address {
     Address(7)
 }
 fn k(d: &DataKey) -> Val {
@@ -16,13 +16,13 @@ fn k(d: &DataKey) -> Val {
 // balances and minting rights are OBSERVED through the public queries (a changed storage layout is then judged on
 // behaviour); only the pre-state is SEEDED through the storage keys, and `pre()` checks that what it seeded is
 // what the contract reads (otherwise the run is inconclusive, not a violation)
-fn bal(a: &Address) -> i128 {
+pub fn bal(a: &Address) -> i128 {
     model::with_contract(&tok(), || InterchainToken::balance(Env, a.clone()))
 }
-fn is_minter(a: &Address) -> bool {
+pub fn is_minter(a: &Address) -> bool {
     model::with_contract(&tok(), || InterchainToken::is_minter(&Env, a.clone()))
 }
-fn owner_now() -> Option<Address> {
+pub fn owner_now() -> Option<Address> {
     model::storage_get(&tok(), 0, &model::val_of(&axelar_soroban_std_owner_key())).map(|v| Address(v.w as u32))
 }
 // the owner key type is private to axelar-soroban-std; its model serialisation is observed through set_owner
@@ -31,21 +31,21 @@ fn axelar_soroban_std_owner_key() -> Val {
 }
 static mut OWNER_KEY: Val = Val::VOID;
 
-struct Pre {
-    env: Env,
-    p: [Address; 3],
-    b: [i128; 3],
-    owner: Address,
-    seq: u32,
-    al_from: Address,
-    al_spender: Address,
-    al_present: bool,
-    al_amount: i128,
-    al_exp: u32,
+pub struct Pre {
+    pub env: Env,
+    pub p: [Address; 3],
+    pub b: [i128; 3],
+    pub owner: Address,
+    pub seq: u32,
+    pub al_from: Address,
+    pub al_spender: Address,
+    pub al_present: bool,
+    pub al_amount: i128,
+    pub al_exp: u32,
 }
 /// principals 1..=3 with arbitrary non-negative balances (present or absent); owner one of 1..=4;
 /// one allowance entry between two arbitrary principals.
-fn pre() -> Pre {
+pub fn pre() -> Pre {
     let env = Env::default();
     any::auths();
     let p = [Address(1), Address(2), Address(3)];
